@@ -317,3 +317,5 @@ UNITS.append(add_subclass_arguments_unit("C14"))
 
 from contracts.any_units import normalize_default_unit, typehint_instantiate_unit  # noqa: E402
 UNITS += [typehint_instantiate_unit("C14"), normalize_default_unit("C14")]
+from contracts.any_units import is_single_subclass_typehint_unit, is_subclass_typehint_unit  # noqa: E402
+UNITS += [is_subclass_typehint_unit("C14"), is_single_subclass_typehint_unit("C14")]
